@@ -273,14 +273,14 @@ func runC17(c *Ctx) {
 
 	c.rule("C17.O1", "shutdown order: ChainService.Stop runs once; every subsystem is stopped before s.quit is closed and s.wg is waited; the work manager (last producer of filters) is stopped before the filter batch writer; every subsystem Stop closes its quit channel before it waits for its goroutines", func() {
 		stop := c.fn(fnCSStop)
-		add := c.funcObj("sync/atomic", "AddInt32")
+		add := atomicOp("Add")
 		var effects []ssa.Instruction
 		ir.Instrs(stop, func(in ssa.Instruction) {
-			if _, ok := in.(*ssa.Call); ok && !callTo(add)(in) {
+			if _, ok := in.(*ssa.Call); ok && !add(in) {
 				effects = append(effects, in)
 			}
 		})
-		g := equalIs("atomic.AddInt32(&s.shutdown,1) vs 1", find(stop, binops(eqOps, valIsCallTo(add), constIntIs(1))), true)
+		g := equalIs("atomic.AddInt32(&s.shutdown,1) vs 1", find(stop, binops(eqOps, valIsAtomicOp("Add"), constIntIs(1))), true)
 		c.guarded(stop, g, 1, "shutdown steps", effects, 8, gDominate)
 		wmStop := callTo(c.method("query", "WorkManager", "Stop"))
 		bwStop := callTo(c.method("chanutils", "BatchWriter", "Stop"))
